@@ -996,8 +996,26 @@ func TestComparerAgreesWithOracleOnGrid(t *testing.T) {
 			}
 		}
 	}
+	// segments of several digits: pairs whose texts run into each other when put side by side
+	// ("1.0.1"+"11.0.0" and "1.0.11"+"1.0.0"), numeric versus textual order (9 < 10, 99 < 100).
+	// Every process evaluates all of them, forwards and backwards, so that an answer remembered
+	// from one pair can meet every other pair.
+	multi := []string{"1.0.0", "1.0.1", "1.0.11", "11.0.0", "1.0.10", "1.0.9", "1.10.0", "1.9.0", "10.0.0", "9.0.0", "1.0.100", "1.0.99", "0.1.0", "0.10.0", "10.1.0", "1.1.0", "1.1.1", "11.1.0", "1.11.0", "1.0.0-rc.1", "1.0.0-rc.11", "1.0.0-rc.1.1", "1.0.1-rc.1"}
+	for pass := 0; pass < 2; pass++ {
+		for x := range multi {
+			for y := range multi {
+				a, b := multi[x], multi[y]
+				if pass == 1 {
+					a, b = multi[len(multi)-1-x], multi[len(multi)-1-y]
+				}
+				if !e.Do(pairCase{a, b}) {
+					return
+				}
+			}
+		}
+	}
 	vh.LabelN("comparer-pairs-checked", e.Count())
-	e.Done("default comparer vs reference precedence: 320x320 pairs (all cores x pre-releases) + 80x80 pairs (2x2x2 cores x pre-release x build)")
+	e.Done("default comparer vs reference precedence: 23x23 pairs with segments of several digits (every process, both directions); 320x320 pairs (all cores x pre-releases) + 80x80 pairs (2x2x2 cores x pre-release x build)")
 }
 
 // ---------------------------------------------------------------------------------------
